@@ -62,24 +62,25 @@ theorem opsB_wf : HistWF opsB := by
     "buffers frozen" and "catalogue persisted" (before batching); `r3` after batching, still before persist_metastore;
     the flush completes; clean restart with reversed replay. -/
 def iopsFlush : List (IOp Nat Nat) :=
-  [.ingest r1 10, .forceReq, .flushBegin 1, .ingest r2 20, .flushBatch fiPlain, .ingest r3 5, .flushMeta, .flushGcParts, .flushGcWal]
+  [.ingest r1 10, .forceReq, .flushBegin 1, .ingest r2 20, .flushBatch fiPlain, .ingest r3 5, .flushMeta, .flushGcParts, .flushGcWal, .flushAnswer]
 
 def iopsA : List (IOp Nat Nat) := iopsFlush ++ [.restart revOrder]
 
 /-- As `iopsFlush`, and a SECOND force_flush is requested while the first flush is past its freeze. -/
 def iopsLate : List (IOp Nat Nat) :=
-  [.ingest r1 10, .forceReq, .flushBegin 1, .ingest r2 20, .forceReq, .flushBatch fiPlain, .flushMeta, .flushGcParts, .flushGcWal]
+  [.ingest r1 10, .forceReq, .flushBegin 1, .ingest r2 20, .forceReq, .flushBatch fiPlain, .flushMeta, .flushGcParts, .flushGcWal, .flushAnswer]
 
 theorem iopsFlush_wf : IHistWF iopsFlush := by
   intro op h
   simp only [iopsFlush, List.mem_cons, List.mem_nil_iff, or_false] at h
-  rcases h with rfl | rfl | rfl | rfl | rfl | rfl | rfl | rfl | rfl
+  rcases h with rfl | rfl | rfl | rfl | rfl | rfl | rfl | rfl | rfl | rfl
   · exact r1_wf
   · trivial
   · trivial
   · exact r2_wf
   · exact fiPlain_wf
   · exact r3_wf
+  · trivial
   · trivial
   · trivial
   · trivial
@@ -94,13 +95,14 @@ theorem iopsA_wf : IHistWF iopsA := by
 theorem iopsLate_wf : IHistWF iopsLate := by
   intro op h
   simp only [iopsLate, List.mem_cons, List.mem_nil_iff, or_false] at h
-  rcases h with rfl | rfl | rfl | rfl | rfl | rfl | rfl | rfl | rfl
+  rcases h with rfl | rfl | rfl | rfl | rfl | rfl | rfl | rfl | rfl | rfl
   · exact r1_wf
   · trivial
   · trivial
   · exact r2_wf
   · trivial
   · exact fiPlain_wf
+  · trivial
   · trivial
   · trivial
   · trivial
